@@ -48,3 +48,17 @@ NOT_COVERED["C14"] = ["EventDispatcher.run (signal handlers, two async-with task
 NOT_COVERED["C15"] = ["'every event and job is eventually dispatched once due' is liveness (fairness of the asyncio loop, termination of handlers): not covered",
                       "RealtimeDispatcher._on_idle body (trusted)"]
 LEVELS["C14"] = "other"
+
+LEVELS["C19"] = "proof"
+ASSUMPTIONS["C19"] = [
+    "Decimal(text) and datetime.strptime(text, fmt) are uninterpreted functions of the text (dec / strp); malformed text (InvalidOperation, ValueError) is not modelled",
+    "every datetime is timezone-aware; datetimes are integers (microseconds), timedeltas too; float arithmetic in main() (timestamp() % duration) is real arithmetic",
+    "a trade is (when, price, amount) with price > 0 and amount > 0 (precondition of push_trade); prices are compared exactly",
+    "interference for RealTimeTradesToBar.main: while it sleeps other tasks push trades / pop bar events, keeping the representation invariant rt_wf",
+]
+NOT_COVERED["C19"] = [
+    "csv.EventSource / load_and_yield / load_sort_and_yield (file reading, csv.DictReader, sorted()) and open_file_with_detected_encoding (byte-order-mark table): not under contract -- 'in time order when sorting is requested' and the encoding clause are not decided",
+    "yahoo.RowParser (adjusted close / sanitize) and the exchange-specific wrappers beyond the common RowParser",
+    "'emits bars in time order at the end of their window': one bar per flush stamped with the window's last instant is proved; the timing of the flush is the sleep computation in main() (not specified)",
+    "sum of amounts is the recursive spec function wsum (axioms instantiated by the checker, not proved from a definition of finite sums)",
+]
